@@ -89,7 +89,25 @@ func cmdRun(args []string) {
 	}
 	f(c)
 	rep := c.finish()
-	b, _ := json.MarshalIndent(rep, "", " ")
+	b, merr := json.MarshalIndent(rep, "", " ")
+	if merr != nil {
+		// a sample or input holds a value JSON cannot carry (a broken implementation can return
+		// such values): keep the textual forms only
+		for i := range rep.Samples {
+			rep.Samples[i] = jsonSafe(rep.Samples[i])
+		}
+		for i := range rep.Disagreements {
+			rep.Disagreements[i].Input = jsonSafe(rep.Disagreements[i].Input)
+		}
+		for i := range rep.KnownHits {
+			rep.KnownHits[i].Input = jsonSafe(rep.KnownHits[i].Input)
+		}
+		b, merr = json.MarshalIndent(rep, "", " ")
+		if merr != nil {
+			rep.Samples = nil
+			b, _ = json.MarshalIndent(rep, "", " ")
+		}
+	}
 	if *report != "" {
 		if err := os.WriteFile(*report, b, 0o644); err != nil {
 			fmt.Fprintln(os.Stderr, "harness:", err)
